@@ -425,7 +425,15 @@ def _maybe_attach_shm(
     except (ValueError, UnicodeDecodeError):
         _logger.warning("Ignoring malformed SHM metadata: name=%r, size=%r", shm_name_bytes, shm_size_bytes)
         return None
-    return ShmSegment.attach(shm_name, shm_size, track=False)
+    try:
+        return ShmSegment.attach(shm_name, shm_size, track=False)
+    except (OSError, ValueError):
+        # No such segment, a name the OS refuses, a size that is not positive,
+        # or a segment that is not a VGI one (bad magic / version): the request
+        # advertised something we cannot attach to.  That is the caller's
+        # error, not a reason to end the connection.
+        _logger.warning("Ignoring SHM segment that cannot be attached: name=%r, size=%r", shm_name, shm_size)
+        return None
 
 
 class _ConnectionShm:
